@@ -23,7 +23,8 @@ TECHNIQUE = "runtime configuration sweep over PYTHONHASHSEED with an offline com
 RULE = ("a batch of scripts biased to what iterates sets - several template parameters in one argument (overlapping names), several registers in "
         "one argument, includes on >=3 non-contiguous modes, many modes - executed in K processes (6 quick, 16 thorough: seeds 0..K-2 plus "
         "'random'); non-trivial = a script with >=2 parameters or >=2 registers in one argument, or an include on >=3 modes; distinct by SHA-1 "
-        "of the script (evaluations = script executions over all processes)")
+        "of the script (evaluations = script executions over all processes)"
+        '; include calls with positional values or faulty keywords (the outcome, whatever it is, must not depend on the hash seed)')
 BUDGET = {"quick": 700, "thorough": 5000}   # scripts per process
 WORKERS = {"quick": 6, "thorough": 16}
 MIN_NONTRIVIAL = {"quick": 200, "thorough": 1500}
